@@ -24,6 +24,7 @@ MACROS = [
     ("statBasic", "STAT_BASIC", "int"), ("statUpper", "STAT_UPPER", "int"),
     ("statLower", "STAT_LOWER", "int"), ("statZero", "STAT_ZERO", "int"),
     ("extraRows", "EXTRA_ROWS", "int"), ("extraCols", "EXTRA_COLS", "int"), ("extraMat", "EXTRA_MAT", "int"),
+    ("namebufsize", "ILL_namebufsize", "int"),
 ]
 
 
@@ -76,9 +77,38 @@ def writers_section(libdir):
     return "\n".join(lines)
 
 
+def lplex_section(libdir):
+    """C10/C11: the reserved words of the LP reader (read_lp.c all_keyword[] with all_keyword_len[]) and the
+    punctuation set of ILLis_lp_name_char (lp.c)"""
+    rl = open(os.path.join(libdir, "qsopt_ex", "read_lp.c")).read()
+    m = re.search(r"static\s+const\s+char\s*\*\s*all_keyword\s*\[\]\s*=\s*\{(.*?)\}\s*;", rl, re.S)
+    if not m:
+        raise build.BuildError("translator: all_keyword[] not found in read_lp.c")
+    kws = re.findall(r'"([^"]*)"', m.group(1))
+    m2 = re.search(r"static\s+int\s+all_keyword_len\s*\[\]\s*=\s*\{(.*?)\}\s*;", rl, re.S)
+    if not m2:
+        raise build.BuildError("translator: all_keyword_len[] not found in read_lp.c")
+    lens = [int(x) for x in re.findall(r"-?\d+", m2.group(1))]
+    lp = open(os.path.join(libdir, "qsopt_ex", "lp.c")).read()
+    m3 = re.search(r"ILLis_lp_name_char\s*\(\s*int\s+c\s*,\s*int\s+pos\s*\)\s*\{(.*?)\n\}", lp, re.S)
+    if not m3:
+        raise build.BuildError("translator: ILLis_lp_name_char not found in lp.c")
+    m4 = re.search(r'strchr\s*\(\s*"((?:[^"\\]|\\.)*)"\s*,\s*c\s*\)', m3.group(1))
+    if not m4:
+        raise build.BuildError("translator: punctuation set of ILLis_lp_name_char not found")
+    specials = bytes(m4.group(1), "latin-1").decode("unicode_escape")
+    lines = ["/-- `all_keyword[]` of read_lp.c (reserved words at the start of a line) -/",
+             "def lpKeywords : List String := [" + ", ".join(lean_str(k) for k in kws) + "]",
+             "/-- `all_keyword_len[]` of read_lp.c (without the -1 sentinel) -/",
+             "def lpKeywordLens : List Nat := [" + ", ".join(str(x) for x in lens if x >= 0) + "]",
+             "/-- the punctuation characters `ILLis_lp_name_char` accepts in a name (lp.c) -/",
+             "def lpNameSpecials : String := " + lean_str(specials)]
+    return "\n".join(lines)
+
+
 def generate(libdir, extra_sections=()):
     vals = eval_macros(libdir)
-    extra_sections = list(extra_sections) + [writers_section(libdir)]
+    extra_sections = list(extra_sections) + [writers_section(libdir), lplex_section(libdir)]
     lines = ["/- GENERATED by vlib/translate.py from /repo's current sources — do not edit. -/",
              "namespace Qsx.Gen"]
     for lean, mac, kind in MACROS:
